@@ -147,6 +147,11 @@ pub fn start_states(start: &Start) -> Result<(GameState, Model), String> {
     match start {
         Start::Setup => Ok((GameState::initial(), Model::initial())),
         Start::Pos(PosSpec { board, gold_to_move, move_number }) => {
+            // generator soundness: a start that is not a legal position is a harness bug (inconclusive),
+            // never a finding
+            if !board.within_complement() {
+                return Err(format!("harness generated a start position outside the complement: {}", board_text(board)));
+            }
             let eng = engine_from_position(board, *gold_to_move, *move_number)?;
             Ok((eng, Model::from_position(*board, *gold_to_move, *move_number)))
         }
